@@ -78,6 +78,7 @@ type result struct {
 	Violations   []*recViolation `json:"violations"`
 	Samples      []any           `json:"samples"`
 	Inconclusive []string        `json:"inconclusive"`
+	Described    []any           `json:"described,omitempty"`
 }
 
 type recorder struct {
@@ -180,7 +181,7 @@ func wantCase(only, name string) bool {
 }
 
 func childMain() {
-	debug.SetMaxStack(64 << 20) // a runaway recursion dies quickly instead of eating 1 GB first
+	debug.SetMaxStack(64 << 20)        // a runaway recursion dies quickly instead of eating 1 GB first
 	c := kit.New("C10", "exploration") // only for Rng / tier: the child never calls Finish
 	partName := os.Getenv("C10_PART")
 	lo, _ := strconv.Atoi(os.Getenv("C10_LO"))
@@ -188,6 +189,7 @@ func childMain() {
 	batch := os.Getenv("C10_BATCH")
 	only := os.Getenv("C10_ONLY")
 	mark := os.Getenv("C10_MARK")
+	describeOnly = os.Getenv("C10_DESCRIBE") != ""
 	skip := map[int]bool{}
 	for _, s := range strings.Split(os.Getenv("C10_SKIP"), ",") {
 		if n, err := strconv.Atoi(s); err == nil {
@@ -252,6 +254,7 @@ func childMain() {
 	}
 	wg.Wait()
 	rec.finalSamples()
+	rec.res.Described = described
 	b, err := json.Marshal(rec.res)
 	if err != nil {
 		fmt.Fprintln(os.Stderr, "c10 child: cannot encode result:", err)
@@ -287,7 +290,7 @@ type childRun struct {
 	note   string
 }
 
-func runChild(c *kit.Ctx, p part, batch string, lo, hi int, skip []int, markFile string, workDir string) childRun {
+func runChild(c *kit.Ctx, p part, batch string, lo, hi int, skip []int, markFile string, workDir string, extraEnv ...string) childRun {
 	resFile := filepath.Join(workDir, "result.json")
 	errFile := filepath.Join(workDir, "stderr.txt")
 	_ = os.Remove(resFile)
@@ -301,6 +304,7 @@ func runChild(c *kit.Ctx, p part, batch string, lo, hi int, skip []int, markFile
 	cmd.Env = append(os.Environ(), "C10_CHILD=1", "C10_PART="+p.name, "C10_BATCH="+batch, "C10_LO="+strconv.Itoa(lo), "C10_HI="+strconv.Itoa(hi),
 		"C10_ONLY="+c.Only, "C10_SKIP="+strings.Join(sk, ","), "C10_MARK="+markFile, "C10_RESULT="+resFile,
 		"VERIF_SEED="+strconv.FormatInt(c.Seed, 10), "VERIF_TIER="+c.Tier, "GOTRACEBACK=single")
+	cmd.Env = append(cmd.Env, extraEnv...)
 	ef, err := os.Create(errFile)
 	if err != nil {
 		return childRun{note: "cannot create stderr file: " + err.Error()}
@@ -499,9 +503,13 @@ func main() {
 				key, msg = fatalKey(pin.stderr)
 				total["fatal_errors"]++
 				c.Eval("fatal|"+caseName, false)
-				c.Violate(key, caseName, "the process died with a Go fatal error / unrecovered panic ("+msg+") while running this case; replay it with ./check C10 --replay",
-					map[string]any{"stderr": firstLines(pin.stderr, 40), "note": "inputs are regenerated from (seed, case); see the replay file"})
 				idx, _ := strconv.Atoi(caseName[strings.LastIndex(caseName, "/")+1:])
+				wit := map[string]any{"stderr": firstLines(pin.stderr, 40)}
+				// write the case's input out: the generator runs again with every call recorded instead of made
+				if d := runChild(c, p, batch, idx, idx+1, nil, "", workDir, "C10_DESCRIBE=1", "C10_ONLY="); d.res != nil && len(d.res.Described) > 0 {
+					wit["input"] = d.res.Described[0]
+				}
+				c.Violate(key, caseName, "the process died with a Go fatal error / unrecovered panic ("+msg+") while running this case; replay it with ./check C10 --replay", wit)
 				skip = append(skip, idx)
 				if attempt >= 3 && p.name != "star" {
 					c.Inconclusive("batch " + batch + ": more than 4 fatal cases, batch abandoned")
